@@ -505,3 +505,28 @@ Definition nwf (NP : nprob) : bool :=
   && forallb (lit_ok NP) (np_goal NP).
 
 Definition ns_of (trues : list N) : nstate := fun p => existsb (N.eqb p) trues.
+
+(* ---- the prepared problem as a problem of the shared planning semantics (ground, parameterless actions whose
+   preconditions are literals and whose effects are  "fluent := constant  if  conjunction of literals") *)
+Definition lit_expr (l : lit) : expr := if snd l then EFluent (fst l) [] else ENot (EFluent (fst l) []).
+
+Definition rule_effect (r : nrule) : effect :=
+  {| e_fl := fst (r_tgt r); e_args := []; e_val := EBool (snd (r_tgt r)); e_cond := EAnd (map lit_expr (r_cond r));
+     e_kind := KAssign; e_vars := []; e_isbool := true |}.
+
+Definition embed_act (a : nact) : action :=
+  {| a_params := []; a_pre := map lit_expr (na_pre a); a_effs := map rule_effect (na_rules a) |}.
+
+Fixpoint number_from {A} (i : nat) (l : list A) : list (N * A) :=
+  match l with [] => [] | x :: l' => (N.of_nat i, x) :: number_from (S i) l' end.
+
+Definition embed (NP : nprob) : problem :=
+  {| p_objs := []; p_ifun := [];
+     p_fluents := map (fun p => {| fd_id := p; fd_sig := []; fd_ty := FBool |}) (np_atoms NP);
+     p_actions := number_from 0 (map embed_act (np_acts NP));
+     p_goals := map lit_expr (np_goal NP); p_invs := [] |}.
+
+Definition embed_state (s : nstate) : state :=
+  fun f args => match args with [] => Some (VBool (s f)) | _ => None end.
+
+Definition embed_plan (pi : list nat) : plan := map (fun i => (N.of_nat i, [])) pi.
